@@ -420,6 +420,19 @@ func TestC16Bursts(t *testing.T) {
 			st.NonTrivial(H("burst", fam, b))
 			st.Class("burst " + fam)
 		}
+		// the same burst under GOMAXPROCS values that do not divide typical work splits (3, 5, 6, 7)
+		if is2D(fam) {
+			for _, procs := range []int{3, 5, 6, 7} {
+				c := ConcCase{Procs: procs, Repeat: 1}
+				for i := 0; i < 24; i++ {
+					c.Specs = append(c.Specs, pool[(i+procs)%len(pool)])
+				}
+				checkC16(t, c)
+				st.Eval()
+				st.NonTrivial(H("burst-procs", fam, procs))
+				st.Class(fmt.Sprintf("burst under GOMAXPROCS %d", procs))
+			}
+		}
 		// many concurrent readers of ONE freshly made barcode of this family (raw and scaled)
 		for b, sp := range pool {
 			if b >= 2 {
@@ -446,11 +459,20 @@ func TestC16Bursts(t *testing.T) {
 		st.NonTrivial(H("shared-input", round))
 		st.Class("concurrent encodes of adjacent sub-slices of one input buffer")
 	}
+	// many goroutines make the SAME call at the same moment and keep their results; one of them then paints over its
+	// own symbol through whatever mutator it exposes (1D symbols expose the BitList methods, QR symbols Set): the
+	// other callers' symbols must not change (results of coalesced / de-duplicated calls sharing their storage)
+	for _, sp := range familyFirstCalls {
+		checkIdenticalThenPaint(t, IdenticalCase{Spec: sp, Goroutines: 48})
+		st.Eval()
+		st.NonTrivial(H("identical", sp.Fam, sp.Content))
+		st.Class("identical concurrent calls, one result painted over")
+	}
 	st.Sample("burst", map[string]any{"goroutines": n, "family": "qr", "bursts": bursts})
 }
 
 func genConcCase(t *rapid.T) ConcCase {
-	c := ConcCase{Procs: rapid.SampledFrom([]int{1, 2, 4, 16}).Draw(t, "procs"), Scale: rapid.Bool().Draw(t, "scale"),
+	c := ConcCase{Procs: rapid.SampledFrom([]int{1, 2, 4, 16, 3, 5, 6, 7}).Draw(t, "procs"), Scale: rapid.Bool().Draw(t, "scale"),
 		ColdStart: rapid.IntRange(0, 3).Draw(t, "cold") == 0, Repeat: rapid.IntRange(1, 3).Draw(t, "repeat")}
 	if !c.ColdStart && rapid.IntRange(0, 4).Draw(t, "shared") == 0 {
 		c.SharedRead = true
@@ -630,3 +652,69 @@ func checkSharedInput(t TB, c SharedInputCase) {
 }
 
 func init() { register("shared-input", func(t TB, c SharedInputCase) { checkSharedInput(t, c) }) }
+
+// IdenticalCase: Goroutines goroutines make the same call at once; afterwards result 0 is painted over.
+type IdenticalCase struct {
+	Spec       EncSpec `json:"spec"`
+	Goroutines int     `json:"goroutines"`
+}
+
+func checkIdenticalThenPaint(t TB, c IdenticalCase) {
+	noteCase("C16", "identical-calls", c)
+	want := sequentialRef(c.Spec, false)
+	for round := 0; round < 6; round++ {
+		res := make([]barcode.Barcode, c.Goroutines)
+		start := make(chan struct{})
+		var wg sync.WaitGroup
+		for i := range res {
+			wg.Add(1)
+			go func(i int) {
+				defer wg.Done()
+				<-start
+				for spin := 0; spin < 3; spin++ { // several tries to overlap inside the encoder
+					bc, err, pv := encodeSpec(c.Spec)
+					if err == nil && pv == nil && !nilBarcode(bc) {
+						res[i] = bc
+					}
+				}
+			}(i)
+		}
+		close(start)
+		wg.Wait()
+		if res[0] == nil {
+			return
+		}
+		b := res[0].Bounds()
+		painted := false
+		try(func() {
+			if m, ok := res[0].(interface{ SetBit(int, bool) }); ok {
+				for k := 0; k < b.Dx()*b.Dy(); k++ {
+					m.SetBit(k, k%3 == 0)
+				}
+				painted = true
+			}
+			if m, ok := res[0].(interface{ Set(x, y int, val bool) }); ok {
+				for k := 0; k < b.Dx(); k++ {
+					m.Set(k, k%b.Dy(), k%2 == 0)
+					m.Set(k, 0, true)
+				}
+				painted = true
+			}
+		})
+		if !painted {
+			return
+		}
+		for i := 1; i < len(res); i++ {
+			if res[i] == nil {
+				continue
+			}
+			if fp := enc.Fingerprint(res[i], nil, nil); fp != want {
+				failf(t, "C16", "identical-calls", c, "round %d: after caller 0 painted over its own symbol, the symbol returned to caller %d by a simultaneous identical call is no longer the barcode the call returns alone", round, i)
+			}
+		}
+	}
+}
+
+func init() {
+	register("identical-calls", func(t TB, c IdenticalCase) { checkIdenticalThenPaint(t, c) })
+}
